@@ -123,7 +123,8 @@ let run id =
     if m <> Stdlib.List.length bl0 then Printf.printf "%s qo BAD-PERM %d %d\n" id m (Stdlib.List.length bl0)
     else begin
       let bl = Stdlib.List.map (fun i -> let (l, v) = Stdlib.List.nth bl0 i in (l, if rev = 1 then Stdlib.List.rev v else v)) perm in
-      let res = qualifyObjects_over bl specs in
+      (* the code after fix C20-qualify-pass3-not-closed: the last loop iterates to closure *)
+      let res = qualifyObjects_closed_over bl specs in
       let strs = Stdlib.List.map (fun (o, q) ->
         Printf.sprintf "%d.%d=%s" (int_of_nat o.q_schema) (int_of_nat o.q_label)
           (match q with None -> "-" | Some x -> string_of_int (int_of_nat x))) res in
@@ -142,7 +143,8 @@ let run id =
     if m <> Stdlib.List.length bl0 then Printf.printf "%s qr BAD-PERM %d %d\n" id m (Stdlib.List.length bl0)
     else begin
       let bl = Stdlib.List.map (fun i -> let (l, v) = Stdlib.List.nth bl0 i in (l, if rev = 1 then Stdlib.List.rev v else v)) perm in
-      let res = qualifyObjects_over bl specs in
+      (* the code after fix C20-qualify-pass3-not-closed: the last loop iterates to closure *)
+      let res = qualifyObjects_closed_over bl specs in
       let strs = Stdlib.List.map (fun t ->
         Printf.sprintf "%d.%d=>%s" (int_of_nat t.q_schema) (int_of_nat t.q_label)
           (match qualifyReferences_ref res t with
